@@ -16,7 +16,9 @@ RULE = ("case = K <method_timeout|-> <calls> <steps>: 1-12 concurrent calls on O
         "executor once (internal_executor(false): the socket reader only runs then), the peer answers call i with a return / an error "
         "(also twice, also before the caller is polled again, also while the caller is still inside send()), stray returns/errors with "
         "the serial of a call never made, signals, a signal and a method call carrying a pending call's serial as reply_serial, EOF / "
-        "read error at a random point, method_timeout 50 ms against answers that never come. Shapes: random interleavings; bursts "
+        "read error at a random point, method_timeout 50 ms against answers that never come; in ~7 % of the small cases the "
+        "application makes a MessageStream for exactly `type='method_return'` / `type='error'` (steps Y / W, y = poll a pending "
+        "creation again, D = drop those streams). Shapes: random interleavings; bursts "
         "(all calls written, all answers queued, then the reader runs: > 8 unread replies, the back-pressure branch of "
         "broadcast_direct); floods of strays while callers do not poll; answer-before-first-poll. After the listed steps the harness "
         "drains (tick until idle, poll everybody, until nothing moves; with a timeout: sleep past it and drain again). The harness "
@@ -35,7 +37,7 @@ ASSUMPTIONS = ["async-broadcast contract (C19/Broadcast.v): bounded FIFO with on
                "serial numbers of concurrent calls are distinct (C15)",
                "executor: a woken task is eventually polled; timers fire (LTimeout is an event of the model, real time is not modelled)",
                "async_lock::Mutex / the write path are as in C18; a failed sendmsg makes send() fail"]
-PARTIAL = ["C19_timeout_partial", "C19_flags_call_refuted"]
+PARTIAL = ["C19_delivery_partial", "C19_return_rule_hijack_refuted"]
 SHARDS = 4
 
 
@@ -201,11 +203,15 @@ LEVEL_TEXT = ("Theorems in coq/theories/Properties/C19.v over a small-step model
               "and that answers no other call (C19_match); it completes at most once (C19_once); because the receiver is activated "
               "before the send, no answer is ever behind a waiting caller's cursor, and a caller that keeps taking items reaches the "
               "first answer (C19_sees_nothing_missed, C19_sees); NoReplyExpected calls complete at the send (C19_noreply); once the "
-              "reader has failed every waiting caller completes within as many polls as it has unread items plus one (C19_fail); the "
-              "timer completes a waiting call_method call with TimedOut (C19_timeout_partial). PARTIAL: Proxy::call_with_flags (flags "
-              "other than NoReplyExpected) awaits the reply without the configured method timeout (C19_flags_call_refuted, confirmed "
-              "on the real code). Protocol-level proof: the runtime substrate (async-broadcast, executor, timers) is modelled by "
-              "contract; the model is tied to the code by replaying every recorded step of real concurrent calls through Model.step.")
-LEVEL_NOTE = ("Trusted: Coq kernel; the hand-written model (tied to the code by step-by-step replay of ~400 quick / 30k thorough "
+              "reader has failed every waiting caller completes within as many polls as it has unread items plus one (C19_fail); with a "
+              "method timeout the timer completes ANY waiting call with TimedOut — full strength since fix 3eb91a8f made "
+              "Proxy::call_with_flags honour it (C19_timeout) — and never without one. PARTIAL: the reader puts every reply into the "
+              "method-return channel (C19_delivery_partial) unless the application has subscribed to exactly the rule "
+              "type='method_return' or type='error': Connection::add_match then replaces the connection's own msg_senders entry and "
+              "replies never reach the callers again (C19_return_rule_hijack_refuted, C19_hijacked_returns_lost_for_ever; confirmed on "
+              "the real code, suggested fix in seeded/selftest/C19/suggested_fix_internal_keys.diff). Protocol-level proof: the runtime "
+              "substrate (async-broadcast, executor, timers) is modelled by contract; the model is tied to the code by replaying every "
+              "recorded step of real concurrent calls through Model.step.")
+LEVEL_NOTE = ("Trusted: Coq kernel; the hand-written model (tied to the code by step-by-step replay of 1200 quick / 30k thorough "
               "recorded interleavings incl. channel queue length and receiver count after every step); the async-broadcast contract; "
               "causal peer; harness/hcalls. Real time is not modelled: 'the timeout passes' is an event.")
